@@ -16,6 +16,7 @@ from __future__ import annotations
 import ast
 import builtins
 import hashlib
+import json
 import os
 import time
 
@@ -329,6 +330,12 @@ class Engine:
         ob.secs = time.time() - t0
         if os.environ.get("PYVC_DEBUG_SAT") and ob.status == "sat" and ob.backend != "skipped":
             print(f"[sat] {oid} {ob.detail[:300]}", flush=True)
+            if os.environ.get("PYVC_DUMP_SMT") and ob.smt2:
+                _fn = os.path.join(os.environ["PYVC_DUMP_SMT"], oid.replace("/", "_").replace(":", "_") + ".smt2")
+                if not os.path.exists(_fn):
+                    open(_fn, "w").write(ob.smt2)
+            if os.environ.get("PYVC_DEBUG_SAT") == "2":
+                print("      path lines:", sorted(self.cover)[-40:], "model:", json.dumps(ob.model)[:600] if ob.model else None, flush=True)
         if os.environ.get("PYVC_DEBUG") and ob.secs > 1:
             print(f"[prove {ob.secs:.2f}s {ob.status} {ob.backend}] {oid} {detail[:80]}", flush=True)
         self.obligations.append(ob)
